@@ -288,24 +288,23 @@ def readers(chk, lay):
             uc = _kw(g, "usecols", None)
             chk.ob("R-FMT-LAYOUT", c + "{genfromtxt usecols}", "one value per line: column 0", uc in (0, None, (0,), [0]),
                    derived="usecols=%r" % (uc,), loc=fi.loc(g), nontrivial=False)
-    # text reads:  <text>.splitlines()[i] (.split()[k])
-    for q, what in ((L + "load_values_and_dt", "dt"), (L + "load_asig", "label")):
-        fi = P.fn(q)
-        c = "eqsig/loader.py:%s" % fi.name
-        found = 0
-        for n in ast.walk(fi.node):
-            if isinstance(n, ast.Subscript) and isinstance(n.value, ast.Call) and isinstance(n.value.func, ast.Attribute) and \
-                    n.value.func.attr in ("splitlines", "readlines") and isinstance(n.slice, ast.Constant):
-                found += 1
-                line = n.slice.value
-                want = hl if what == "dt" else lay.get("label_line")
-                chk.ob("R-FMT-LAYOUT", c + "{%s line}" % what, "%s is read from line %s" % (what, want), line == want,
-                       derived="reads line %s" % line, loc=fi.loc(n), stmt=norm_stmt(n))
-        for n in ast.walk(fi.node):
-            if isinstance(n, ast.Subscript) and isinstance(n.value, ast.Call) and isinstance(n.value.func, ast.Attribute) and \
-                    n.value.func.attr == "split" and isinstance(n.slice, ast.Constant) and what == "dt" and \
-                    ("splitlines" in ast.unparse(n.value) or "readlines" in ast.unparse(n.value) or "readline" in ast.unparse(n.value)):
-                chk.ob("R-FMT-LAYOUT", c + "{dt token}", "dt is token %s of the header" % lay.get("dt_token"), n.slice.value == lay.get("dt_token"),
-                       derived="reads token %s" % n.slice.value, loc=fi.loc(n), stmt=norm_stmt(n))
-        if found == 0 and what == "label":
-            chk.ob("R-FMT-LAYOUT", c + "{label line}", "a text read of the label line", False, derived="none found", inconclusive=True, loc=fi.loc())
+    # text reads, decided on the interpretation (text provenance tags line#i / token#k): which line and which token of the file the
+    # returned dt is parsed from, which line the label is
+    r = analyse(chk, L + "load_values_and_dt", lambda I, st, fi: dict(ffp=AV(kind=K_STR, tags=frozenset(["p:ffp"]))))
+    c = "eqsig/loader.py:load_values_and_dt"
+    for v in r.returns():
+        d = item(v, 1)
+        tg = d.tags if d is not None else frozenset()
+        ln = sorted(t for t in tg if t.startswith("line#"))
+        tk = sorted(t for t in tg if t.startswith("token#"))
+        chk.ob("R-FMT-LAYOUT", c + "{dt line}", "dt is read from line %s" % hl, ln == ["line#%s" % hl], derived="reads %s" % (ln or "no identified line"),
+               loc=r.fi.loc(), inconclusive=not ln)
+        chk.ob("R-FMT-LAYOUT", c + "{dt token}", "dt is token %s of the header" % lay.get("dt_token"), tk == ["token#%s" % lay.get("dt_token")],
+               derived="reads %s" % (tk or "no identified token"), loc=r.fi.loc(), inconclusive=not tk)
+    r = analyse(chk, L + "load_asig", lambda I, st, fi: dict(ffp=AV(kind=K_STR, tags=frozenset(["p:ffp"])), load_label=const_av(True)))
+    c = "eqsig/loader.py:load_asig"
+    o = r.st.heap.get(r.ret.obj) if r.ret is not None and r.ret.kind == K_OBJ else None
+    lab = o.attrs.get("label") if o is not None else None
+    ln = sorted(t for t in (lab.tags if lab is not None else ()) if t.startswith("line#"))
+    chk.ob("R-FMT-LAYOUT", c + "{label line}", "the label is line %s of the file" % lay.get("label_line"), ln == ["line#%s" % lay.get("label_line")],
+           derived="reads %s" % (ln or "no identified line"), loc=r.fi.loc(), inconclusive=not ln)
